@@ -2,6 +2,8 @@
 import json, os, sys, time
 
 VERIF = os.path.dirname(os.path.dirname(os.path.abspath(__file__)))
+# self-test runs against a scratch copy of the repository (FL_REPO) write their evidence / replay files elsewhere (FL_OUT), never into /verif
+OUTROOT = os.environ.get('FL_OUT') or VERIF
 
 
 class CheckError(Exception):
@@ -73,7 +75,7 @@ class Report:
     # ------------------------------------------------------------------------------------
     def finish(self, explanation, assumptions, not_decided, extra=None):
         wall = time.time() - self.t0
-        outdir = os.path.join(VERIF, 'out', self.prop)
+        outdir = os.path.join(OUTROOT, 'out', self.prop)
         os.makedirs(outdir, exist_ok=True)
         for f in os.listdir(outdir):
             if f.startswith('violation-'):
@@ -133,8 +135,8 @@ class Report:
             'wall_s': round(wall, 2),
             'violations': len(self.violations),
         }
-        os.makedirs(os.path.join(VERIF, 'evidence'), exist_ok=True)
-        with open(os.path.join(VERIF, 'evidence', f'{self.prop}.json'), 'w') as f:
+        os.makedirs(os.path.join(OUTROOT, 'evidence'), exist_ok=True)
+        with open(os.path.join(OUTROOT, 'evidence', f'{self.prop}.json'), 'w') as f:
             json.dump(ev, f, indent=1)
         print(f"[{self.prop}] tier={self.tier} configs={','.join(self.cfgs)} obligations={len(self.obligations)} "
               f"distinct={len(distinct)} known={len(self.known_seen)} violations={len(self.violations)} errors={len(self.errors)} wall={wall:.1f}s")
